@@ -661,12 +661,26 @@ def ill_conditioned(cb, impl, rel, name="cond", trials=4, eps=1e-13):
     import random
     from .common import b2f, f2b, close
     from . import harness as H
-    base = impl_floats(cb, impl)
     rng = random.Random(12345)
     cases = []
+    # conditioning is a property of the algorithm, not of a schedule: every solve of the probe runs with one thread (a
+    # race in the multi-threaded code would otherwise make the re-runs differ and pass for "ill-conditioned")
+    multi = any(isinstance(o, dict) and o.get("op") == "solve" and int(o.get("threads", 1)) != 1 for o in cb.ops)
+
+    def one_thread(c):
+        for o in c["ops"]:
+            if isinstance(o, dict) and o.get("op") == "solve":
+                o["threads"] = 1
+        return c
+    if multi:
+        c0 = one_thread(copy.deepcopy(cb.case()))
+        c0["id"] = "base"
+        cases.append(c0)
     for k in range(trials):
         c = copy.deepcopy(cb.case())
         c["id"] = k
+        if multi:
+            one_thread(c)
 
         def go(n):
             if "t" in n:
@@ -682,6 +696,7 @@ def ill_conditioned(cb, impl, rel, name="cond", trials=4, eps=1e-13):
         go(c["tree"])
         cases.append(c)
     res = H.run_cases(name, cases)
+    base = impl_floats(cb, res.get("base", {})) if multi else impl_floats(cb, impl)
     for k in range(trials):
         other = impl_floats(cb, res.get(k, {}))
         if len(other) != len(base):
